@@ -323,6 +323,10 @@ class Respell:
 
     def string_forms(self, v: str, single_only: bool = False) -> list[str]:
         forms = [spell_string(v, "'"), spell_string(v, '"')]
+        if "\\" not in v and ("'" in v or '"' in v):
+            # redundant escapes: the quote character that does NOT delimit the literal may be escaped too
+            both = v.replace("'", "\\'").replace('"', '\\"').replace("\n", "\\n")
+            forms += ["'" + both + "'", '"' + both + '"']
         if single_only or "\\" in v or any(ch in v for ch in OTHER_LINESEPS):
             return forms
         lines = v.split("\n")
